@@ -16,6 +16,7 @@ LEVEL_TEXT = (
     "timer_trigger_next returns the earliest denoted instant strictly after now (equal to now only at start-up), none if "
     "there is none, and a wait target equal to it when no daylight-saving shift is involved; the dispatched trigger_time is "
     "the wall-clock instant; the startup run is consumed once and the shutdown run is issued from stop()"
+    "; the DST-adjusted wait target is only ever subtracted from the `now` it was computed for, and after a dispatch the next instant is computed from a newer clock reading (or the instant itself)"
 )
 LEVEL_NOTE = (
     "honest limit: date/time/offset parsing, croniter and DST arithmetic are numeric and summarised by abstract instants "
